@@ -9,6 +9,7 @@
   expression.rs. All recursion takes fuel (reuse re-enters the tree through the element table).
 -/
 import Svgdx.Geom.Connector
+import Svgdx.Geom.Text
 namespace Svgdx
 open Str Num Gen
 
@@ -259,9 +260,16 @@ def unionOpt (a b : Option BoundingBox) : Option BoundingBox :=
   | none, some y => some y
   | x, none => x
 
-/-- registration at the end of `Container` -/
+/-- containers whose content is referenced from elsewhere, not rendered in place -/
+def notRenderedInPlace (name : Str) : Bool :=
+  name == cs!"clipPath" || name == cs!"marker" || name == cs!"mask" || name == cs!"pattern" ||
+  name == cs!"linearGradient" || name == cs!"radialGradient" || name == cs!"filter"
+
+/-- registration at the end of `Container`: the content box is recorded on the element (unless defs /
+    symbol); only a box that also counts for the parent makes the element the "previous" one -/
 def finishContainer (ev : Evalr ρ) (st : St ρ) (ne : Elem) (bb : Option BoundingBox) : St ρ :=
-  if bb.isSome then setPrev (updateElement ev st { ne with contentBBox := bb }) { ne with contentBBox := bb } else st
+  let st := if bb.isSome then updateElement ev st { ne with contentBBox := bb } else st
+  if bb.isSome && !notRenderedInPlace ne.name then setPrev st { ne with contentBBox := bb } else st
 
 /-- `VarElement`: all right-hand sides are evaluated in the pre-state, then assigned together -/
 def genVar (ev : Evalr ρ) (st : St ρ) (e : Elem) : St ρ × Res :=
@@ -291,18 +299,51 @@ def otherPipeline (ev : Evalr ρ) (st : St ρ) (e : Elem) : Except Err (Elem × 
   let e6 ← e5.resolvePosition st.geo
   pure (e6, rng)
 
+/-- the evaluated `_` comment of `element_events` -/
+def commentEvents (ev : Evalr ρ) (st : St ρ) (e : Elem) : St ρ × Except CErr (List Ev) :=
+  match e.getAttr ['_'] with
+  | some c =>
+    match ev.evalAttr st.lookup st.rng c with
+    | .ok (v, rng) => ({ st with rng := rng }, .ok [Ev.comment ([' '] ++ v ++ [' ']), Ev.text ['\n']])
+    | .error er => (st, .error (.geom er))
+  | none => (st, .ok [])
+
+/-- the raw `__` comment, the shape and its generated text (no state involved) -/
+def shapeEvents (e : Elem) : Except CErr (List Ev) :=
+  let indent : Ev := Ev.text ['\n']
+  let evs2 := match e.getAttr cs!"__" with
+    | some c => [Ev.comment ([' '] ++ c ++ [' ']), indent]
+    | none => []
+  let phantom := e.name == cs!"point" || e.name == cs!"box"
+  if e.hasAttr cs!"text" then
+    match Text.processTextAttr e with
+    | .error er => .error (.geom er)
+    | .ok (orig, tes) =>
+      let shapeEvs := if orig.name != cs!"text" && !phantom then [Ev.empty (adapt orig), indent] else []
+      let textEvs := match tes with
+        | [] => []
+        | [t] => [Ev.start (adapt t.el), Ev.text t.content, Ev.end_ cs!"text"]
+        | t :: spans =>
+          [Ev.start (adapt t.el), indent] ++
+            spans.flatMap (fun sp => [Ev.start (adapt sp.el), Ev.text sp.content, Ev.end_ cs!"tspan"]) ++
+            [indent, Ev.end_ cs!"text"]
+      .ok (evs2 ++ shapeEvs ++ textEvs)
+  else .ok (evs2 ++ (if phantom then [] else [Ev.empty (adapt e)]))
+
+/-- `element_events` without debug mode -/
+def elementEvents (ev : Evalr ρ) (st : St ρ) (e : Elem) : St ρ × Except CErr (List Ev) :=
+  seq (commentEvents ev st e) fun st evs1 =>
+    (st, (shapeEvents e).map (evs1 ++ ·))
+
 /-- `OtherElement`: the one-element pipeline, registration, events -/
 def genOther (ev : Evalr ρ) (st : St ρ) (e : Elem) : St ρ × Res :=
-  if e.hasAttr cs!"text" || e.hasAttr ['_'] || e.hasAttr cs!"__" then ({ st with outside := true }, .error .unsupported)
-  else
-    seq (withRng st (otherPipeline ev st e)) fun st e' =>
-      let st := updateElement ev st e'
-      match st.geo.bb e' with
-      | .error er => (st, .error (.geom er))
-      | .ok bb =>
-        let phantom := e'.name == cs!"point" || e'.name == cs!"box"
-        (if bb.isSome then setPrev st e' else st,
-         .ok (if phantom then [] else [Ev.empty (adapt e')], if e'.name == cs!"point" then none else bb))
+  seq (withRng st (otherPipeline ev st e)) fun st e' =>
+    let st := updateElement ev st e'
+    match st.geo.bb e' with
+    | .error er => (st, .error (.geom er))
+    | .ok bb =>
+      seq (elementEvents ev (if bb.isSome then setPrev st e' else st) e') fun st evs =>
+        (st, .ok (evs, if e'.name == cs!"point" then none else bb))
 
 /-- head of `LoopElement`: count, loop-var, start, step — evaluated in this order -/
 def loopHead (ev : Evalr ρ) (st : St ρ) (e : Elem) : Except CErr (Option Nat × Str × Rat × Rat × ρ) := do
@@ -383,6 +424,27 @@ def groupFinish (ev : Evalr ρ) (st : St ρ) (e : Elem) (r : List Ev × Option B
     | .ok bb => (st, .ok (r.1, bb))
     | .error er => (st, .error (.geom er))
 
+/-- tail of `SvgElement::generate_events`: an element with `clip-path="url(#id)"` contributes only the
+    part of its box inside the referenced `<clipPath>` (and is re-registered with that box) -/
+def clipPost (ev : Evalr ρ) (e : Elem) (x : St ρ × Res) : St ρ × Res :=
+  match x.2 with
+  | .ok (evs, some bb) =>
+    match (e.getAttr cs!"clip-path").bind Ctx.extractUrlref with
+    | some r =>
+      match x.1.geo.get r with
+      | none => (x.1, .error (.geom .reference))
+      | some ce =>
+        if ce.name == cs!"clipPath" then
+          match x.1.geo.bb ce with
+          | .error er => (x.1, .error (.geom er))
+          | .ok (some cb) =>
+            let nb := bb.intersect cb
+            (updateElement ev x.1 { e with contentBBox := nb }, .ok (evs, nb))
+          | .ok none => x
+        else x
+    | none => x
+  | _ => x
+
 def registerEarly (ev : Evalr ρ) (st : St ρ) (n : Node) : St ρ :=
   match tagElem n with
   | some e => updateElement ev st e
@@ -397,7 +459,7 @@ def genElem (ev : Evalr ρ) : Nat → St ρ → Elem → Option Nodes → St ρ 
     if st.depth + 1 > st.cfg.depthLimit then (st, .error (.depthLimit (st.depth + 1) st.cfg.depthLimit))
     else
       let r := dispatch ev fuel { st with depth := st.depth + 1 } e kids
-      ({ r.1 with depth := r.1.depth - 1 }, r.2)
+      clipPost ev e ({ r.1 with depth := r.1.depth - 1 }, r.2)
 
 def dispatch (ev : Evalr ρ) : Nat → St ρ → Elem → Option Nodes → St ρ × Res
   | 0, st, _, _ => (st, .error .fuel)
@@ -467,7 +529,8 @@ def genContainer (ev : Evalr ρ) : Nat → St ρ → Elem → Nodes → St ρ ×
         seq (withRng st (evalAttributes ev st e)) fun st ne =>
           seq (if inner.isSome then (st, .ok (rawNodes ks, none)) else processNodes ev fuel st ks) fun st r =>
             let bb := if e.name == cs!"defs" || e.name == cs!"symbol" then none else r.2
-            (finishContainer ev st ne bb, .ok ([Ev.start (adapt ne)] ++ r.1 ++ [Ev.end_ e.name], bb))
+            (finishContainer ev st ne bb,
+              .ok ([Ev.start (adapt ne)] ++ r.1 ++ [Ev.end_ e.name], if notRenderedInPlace e.name then none else bb))
 
 /-- `GroupElement` (`g`, `symbol`): a new variable scope around the content -/
 def genGroup (ev : Evalr ρ) : Nat → St ρ → Elem → Option Nodes → St ρ × Res
@@ -506,11 +569,13 @@ def loopIter (ev : Evalr ρ) : Nat → St ρ → Nodes → Option Nat → Option
       if !go then (st, .ok (acc, bb))
       else
         seq (processNodes ev fuel (bindLoopVar st name value) ks) fun st r =>
-          seq (postTest ev st untilE) fun st stop =>
-            if stop then (st, .ok (acc ++ r.1, unionOpt bb r.2))
-            else if iteration + 1 > st.cfg.loopLimit then (st, .error (.loopLimit (iteration + 1) st.cfg.loopLimit))
-            else loopIter ev fuel st ks cnt whileE untilE name (value + step) step (iteration + 1) (acc ++ r.1)
-              (unionOpt bb r.2)
+          -- the pass just made is counted, and the limit checked, before the `until` test
+          if iteration + 1 > st.cfg.loopLimit then (st, .error (.loopLimit (iteration + 1) st.cfg.loopLimit))
+          else
+            seq (postTest ev st untilE) fun st stop =>
+              if stop then (st, .ok (acc ++ r.1, unionOpt bb r.2))
+              else loopIter ev fuel st ks cnt whileE untilE name (value + step) step (iteration + 1) (acc ++ r.1)
+                (unionOpt bb r.2)
 
 /-- `ForElement` -/
 def genFor (ev : Evalr ρ) : Nat → St ρ → Elem → Option Nodes → St ρ × Res
